@@ -35,7 +35,7 @@ WRITE_PATH_FILES = ('session.py', 'websocket.py', 'compression.py', 'frame.py', 
 
 class Scheduler(object):
     def __init__(self, plan=None, rnd=None, switch_prob=0.0, files=None, max_steps=200000, pct=None):
-        self.plan = dict(plan or {})      # step -> tid to run (forced choice)
+        self.plan = {k: v for k, v in dict(plan or {}).items() if int(k) >= 0}      # step -> tid to run (forced choice)
         self.rnd = rnd
         self.switch_prob = switch_prob
         # PCT (Burckhardt et al.): random thread priorities, d-1 priority change points at random steps;
@@ -246,7 +246,7 @@ class Scheduler(object):
 def children(trace, plan, bound, used):
     """plans one decision deeper: for every step after the last forced one, every other
     enabled thread; preemptive alternatives cost 1 (bounded), forced-by-blocking ones are free"""
-    last = max(plan) if plan else 0
+    last = max([k for k in plan if k >= 0] or [0])
     out = []
     for step, cur, en, pick, pre in trace:
         if step <= last or step == 0:
